@@ -1182,6 +1182,360 @@ fn syn_gdef_font(r: &mut Rng, id: u64) -> SynFont {
     SynFont { data: syn_base(&label, n as usize, extra), label, wf: !hostile && !dangling, n }
 }
 
+// ---------------------------------------------------------------------------------------------
+// unit level: CoverageTable / ClassDef subset + serialize through the hooks
+// ---------------------------------------------------------------------------------------------
+
+fn unit_err(e: (u16, bool)) -> String {
+    if e.1 {
+        "hard".into()
+    } else if e.0 == 0x40 {
+        "empty".into()
+    } else {
+        "soft".into()
+    }
+}
+
+struct UnitPlan {
+    n: usize,
+    glyphset: Vec<u32>,
+    gmap: Vec<(u32, u32)>,
+    /// ascending old -> ascending new, keys = glyphset
+    monotone: bool,
+}
+
+fn rand_unit_plan(r: &mut Rng, n: u16) -> UnitPlan {
+    let mut glyphset: Vec<u32> = vec![0];
+    let dens = *r.pick(&[2u64, 3, 8, 1]);
+    for g in 1..n as u32 {
+        if dens == 1 || r.chance(1, dens) {
+            glyphset.push(g);
+        }
+    }
+    match r.below(8) {
+        // retain gids
+        0 | 1 => UnitPlan { n: n as usize, gmap: glyphset.iter().map(|g| (*g, *g)).collect(), glyphset, monotone: true },
+        // a map that is not ascending (glyph_map_gsub can only be monotone in klippa; the hook allows anything)
+        2 => {
+            let mut news: Vec<u32> = (0..glyphset.len() as u32).collect();
+            r.shuffle(&mut news);
+            UnitPlan { n: n as usize, gmap: glyphset.iter().copied().zip(news).collect(), glyphset, monotone: false }
+        }
+        // the map knows only part of the glyph set
+        3 => {
+            let gmap: Vec<(u32, u32)> = glyphset.iter().filter(|_| r.chance(2, 3)).enumerate().map(|(i, g)| (*g, i as u32)).collect();
+            UnitPlan { n: n as usize, gmap, glyphset, monotone: false }
+        }
+        // compact renumbering
+        _ => UnitPlan { n: n as usize, gmap: glyphset.iter().enumerate().map(|(i, g)| (*g, i as u32)).collect(), glyphset, monotone: true },
+    }
+}
+
+fn cov_wellformed(c: &CovS) -> bool {
+    let gs = cov_glyphs(c);
+    let asc = gs.windows(2).all(|w| w[0] < w[1]);
+    match c {
+        CovS::F1(_) => asc,
+        CovS::F2(rs) => asc && rs.iter().all(|x| x.0 <= x.1) && rs == &runs_of_ranges(rs),
+    }
+}
+
+/// the same ranges with the start coverage indices they must have
+fn runs_of_ranges(rs: &[(u16, u16, u16)]) -> Vec<(u16, u16, u16)> {
+    let mut i = 0u32;
+    rs.iter()
+        .map(|(a, b, _)| {
+            let c = i as u16;
+            i += (*b as u32).saturating_sub(*a as u32) + 1;
+            (*a, *b, c)
+        })
+        .collect()
+}
+
+fn unit_coverage(s: &mut Session, r: &mut Rng, count: usize) {
+    for k in 0..count {
+        let n = *r.pick(&[8u16, 20, 50, 200, 700]);
+        let up = rand_unit_plan(r, n);
+        let hostile = if k % 3 == 0 { r.range(1, 5) as u64 } else { 0 };
+        let cov = rand_cov(r, n, hostile);
+        let bytes = cov_bytes(&cov);
+        let plan = vh::plan_for_layout(&up.glyphset, &up.gmap, up.n);
+        let Ok(t) = CoverageTable::read(FontData::new(&bytes)) else { continue };
+        let res = catch(|| vh::subset_coverage(&bytes, &plan));
+        let real = match &res {
+            Err(_) => "trap".to_string(),
+            Ok(None) => continue,
+            Ok(Some(Ok(b))) => format!("ok {}", hex(b)),
+            Ok(Some(Err(e))) => unit_err(*e),
+        };
+        s.count(&format!("cov:{}:{}", if hostile == 0 { "wf" } else { "hostile" }, real.split(' ').next().unwrap()));
+        s.case("cov", format!("c17.cov {} {}", plan_tok(up.n, &up.glyphset, &up.gmap), cov_tok(&t)), real);
+        // oracle: the written table read back with read-fonts
+        if cov_wellformed(&cov) && up.monotone {
+            let inp = || format!("unit=coverage n={} glyphset={:?} cov={:?}", up.n, up.glyphset, cov);
+            let want: Vec<u32> = cov_glyphs(&cov).iter().filter_map(|g| up.gmap.iter().find(|p| p.0 == *g as u32).map(|p| p.1)).collect();
+            match &res {
+                Ok(Some(Ok(b))) => {
+                    let out = CoverageTable::read(FontData::new(b));
+                    let ok = match &out {
+                        Ok(o) => {
+                            s.count(match o {
+                                CoverageTable::Format1(_) => "cov:out-format1",
+                                CoverageTable::Format2(_) => "cov:out-format2",
+                            });
+                            let got: Vec<u32> = o.iter().map(|g| g.to_u32()).collect();
+                            got == want
+                                && want.iter().enumerate().all(|(i, g)| o.get(GlyphId::new(*g)) == Some(i as u16))
+                                && (0..up.n as u32 + 2).filter(|g| !want.contains(g)).all(|g| o.get(GlyphId::new(g)).is_none())
+                        }
+                        Err(_) => false,
+                    };
+                    s.oracle("coverage-subset=kept-covered-glyphs-in-order", ok, inp, || format!("want {want:?} out {}", hex(b)));
+                }
+                Ok(Some(Err(e))) => {
+                    s.oracle("coverage-empty-iff-no-kept-glyph", want.is_empty() && e.0 == 0x40 && !e.1, inp, || format!("want {want:?} err {e:?}"));
+                }
+                _ => s.oracle("coverage-subset-no-panic", false, inp, || "panic".into()),
+            }
+        }
+    }
+    // the writer alone
+    for k in 0..count {
+        let mut gs: Vec<u32> = vec![];
+        let style = r.below(8);
+        let len = *r.pick(&[0usize, 1, 2, 3, 4, 7, 10, 30, 100]);
+        let mut g = r.below(50) as u32;
+        for _ in 0..len {
+            gs.push(g);
+            g += *r.pick(&[1u32, 1, 1, 1, 2, 3, 9]);
+        }
+        match style {
+            0 => r.shuffle(&mut gs),
+            1 => {
+                if !gs.is_empty() {
+                    let x = gs[0];
+                    gs.push(x);
+                }
+            }
+            2 => gs.iter_mut().for_each(|x| *x += 0xFFF0),
+            3 => gs.iter_mut().for_each(|x| *x += 0xFFFF_0000),
+            _ => {}
+        }
+        if k == 0 {
+            // u16 run counter overflow
+            gs = (0..66000u32).map(|i| i * 2).collect();
+        }
+        if k == 1 {
+            // more than 65535 glyphs in few runs
+            gs = (0..66000u32).collect();
+        }
+        let res = catch(|| vh::serialize_coverage(&gs));
+        let real = match &res {
+            Err(_) => "trap".to_string(),
+            Ok(Ok(b)) => format!("ok {}", hex(b)),
+            Ok(Err(e)) => unit_err(*e),
+        };
+        s.count(&format!("covser:{}", real.split(' ').next().unwrap()));
+        s.case("covser", format!("c17.covser {}", join(&gs)), real);
+        if let Ok(Ok(b)) = &res {
+            let asc = gs.windows(2).all(|w| w[0] < w[1]) && gs.iter().all(|g| *g < 0x10000) && gs.len() < 0x10000;
+            if asc {
+                let out = CoverageTable::read(FontData::new(b));
+                let ok = match &out {
+                    Ok(o) => {
+                        o.iter().map(|g| g.to_u32()).collect::<Vec<_>>() == gs && gs.iter().enumerate().all(|(i, g)| o.get(GlyphId::new(*g)) == Some(i as u16))
+                    }
+                    Err(_) => false,
+                };
+                s.oracle("coverage-writer-roundtrip", ok, || format!("unit=covser glyphs={gs:?}"), || hex(b));
+            }
+        }
+    }
+}
+
+fn cd_get(c: &CdS, g: u16) -> u16 {
+    match c {
+        CdS::F1(start, cs) => {
+            if g < *start {
+                0
+            } else {
+                cs.get((g - start) as usize).copied().unwrap_or(0)
+            }
+        }
+        CdS::F2(rs) => rs.iter().find(|x| x.0 <= g && g <= x.1).map(|x| x.2).unwrap_or(0),
+    }
+}
+
+fn cd_wellformed(c: &CdS) -> bool {
+    match c {
+        CdS::F1(start, cs) => *start as usize + cs.len() <= 0x10000,
+        CdS::F2(rs) => rs.iter().all(|x| x.0 <= x.1) && rs.windows(2).all(|w| w[0].1 < w[1].0),
+    }
+}
+
+fn unit_classdef(s: &mut Session, r: &mut Rng, count: usize) {
+    for k in 0..count {
+        let n = *r.pick(&[8u16, 20, 50, 200, 700]);
+        let up = rand_unit_plan(r, n);
+        let hostile = if k % 3 == 0 { r.range(1, 3) as u64 } else { 0 };
+        let maxc = *r.pick(&[2u16, 5, 40]);
+        let cd = rand_cd(r, n, maxc, hostile);
+        let bytes = cd_bytes(&cd);
+        let remap = r.chance(1, 2);
+        let keep = r.chance(1, 2);
+        let zero = r.chance(1, 2);
+        let filter = if r.chance(1, 3) {
+            let hh = if hostile != 0 && r.chance(1, 2) { r.range(1, 5) as u64 } else { 0 };
+            Some(rand_cov(r, n, hh))
+        } else {
+            None
+        };
+        let fbytes = filter.as_ref().map(cov_bytes);
+        let plan = vh::plan_for_layout(&up.glyphset, &up.gmap, up.n);
+        let Ok(t) = ClassDef::read(FontData::new(&bytes)) else { continue };
+        let ftok = match &fbytes {
+            None => "n".to_string(),
+            Some(b) => match CoverageTable::read(FontData::new(b)) {
+                Ok(c) => format!("f {}", cov_tok(&c)),
+                Err(_) => continue,
+            },
+        };
+        let res = catch(|| vh::subset_class_def(&bytes, &plan, remap, keep, zero, fbytes.as_deref()));
+        let real = match &res {
+            Err(_) => "trap".to_string(),
+            Ok(None) => continue,
+            Ok(Some(Ok((b, m)))) => format!(
+                "ok {} map={}",
+                hex(b),
+                match m {
+                    None => "none".to_string(),
+                    Some(m) if m.is_empty() => "-".to_string(),
+                    Some(m) => m.iter().map(|(a, b)| format!("{a}:{b}")).collect::<Vec<_>>().join(","),
+                }
+            ),
+            Ok(Some(Err(e))) => unit_err(*e),
+        };
+        s.count(&format!("classdef:remap{}:keep{}:zero{}:filter{}:{}", remap as u8, keep as u8, zero as u8, filter.is_some() as u8, real.split(' ').next().unwrap()));
+        s.case(
+            "classdef",
+            format!("c17.classdef {} {} {} {} {} {}", plan_tok(up.n, &up.glyphset, &up.gmap), remap as u8, keep as u8, zero as u8, ftok, cd_tok(&t)),
+            real,
+        );
+        // oracle: class of every kept glyph through read-fonts
+        let fwf = filter.as_ref().map(cov_wellformed).unwrap_or(true);
+        if cd_wellformed(&cd) && fwf && up.monotone {
+            let inp = || format!("unit=classdef n={} glyphset={:?} remap={remap} keep={keep} zero={zero} filter={filter:?} cd={cd:?}", up.n, up.glyphset);
+            let fglyphs: Option<Vec<u16>> = filter.as_ref().map(cov_glyphs);
+            let passes = |g: u32| fglyphs.as_ref().map(|f| f.contains(&(g as u16))).unwrap_or(true);
+            // (new, old class) of the classified kept glyphs
+            let kept: Vec<(u32, u16)> = up.gmap.iter().filter(|p| passes(p.0) && p.0 < 0x10000).map(|p| (p.1, cd_get(&cd, p.0 as u16))).filter(|p| p.1 != 0).collect();
+            match &res {
+                Ok(Some(Ok((b, m)))) => {
+                    let out = ClassDef::read(FontData::new(b));
+                    let mut classes: Vec<u16> = kept.iter().map(|p| p.1).collect();
+                    classes.sort();
+                    classes.dedup();
+                    let ok = match &out {
+                        Ok(o) => {
+                            s.count(match o {
+                                ClassDef::Format1(_) => "classdef:out-format1",
+                                ClassDef::Format2(_) => "classdef:out-format2",
+                            });
+                            let cmap = |c: u16| -> Option<u16> {
+                                match m {
+                                    None => Some(c),
+                                    Some(m) => m.iter().find(|p| p.0 == c).map(|p| p.1),
+                                }
+                            };
+                            // the class map is an order preserving bijection from the occurring classes onto 0.. / 1..
+                            let map_ok = match m {
+                                None => !remap,
+                                Some(m) => {
+                                    let uses_zero = zero && kept.len() >= up.gmap.iter().filter(|p| passes(p.0)).count();
+                                    let base = if uses_zero { 0 } else { 1 };
+                                    let mut want: Vec<(u16, u16)> = classes.iter().enumerate().map(|(i, c)| (*c, base + i as u16)).collect();
+                                    if !uses_zero {
+                                        want.insert(0, (0, 0));
+                                    }
+                                    remap && m == &want
+                                }
+                            };
+                            map_ok
+                                && kept.iter().all(|(new, c)| Some(o.get(GlyphId16::new(*new as u16))) == cmap(*c))
+                                && (0..up.n as u32 + 2).filter(|g| !kept.iter().any(|p| p.0 == *g)).all(|g| o.get(GlyphId16::new(g as u16)) == 0)
+                        }
+                        Err(_) => false,
+                    };
+                    s.oracle("classdef-subset-class=class-map-of-original-class", ok, inp, || format!("kept {kept:?} map {m:?} out {}", hex(b)));
+                }
+                Ok(Some(Err(e))) => {
+                    s.oracle("classdef-empty-iff-nothing-classified", kept.is_empty() && !keep && e.0 == 0x40 && !e.1, inp, || format!("kept {kept:?} err {e:?}"));
+                }
+                _ => s.oracle("classdef-subset-no-panic", false, inp, || "panic".into()),
+            }
+        }
+    }
+    // the writer alone
+    for k in 0..count {
+        let len = *r.pick(&[0usize, 1, 2, 3, 5, 9, 30, 120]);
+        let maxc = *r.pick(&[1u16, 2, 4, 60]);
+        let mut ps: Vec<(u16, u16)> = vec![];
+        let mut g = r.below(40) as u16;
+        let mut c = r.range(0, maxc as i64) as u16;
+        for _ in 0..len {
+            ps.push((g, c));
+            g += *r.pick(&[1u16, 1, 1, 2, 5]);
+            match r.below(4) {
+                0 => c = r.range(0, maxc as i64) as u16,
+                1 => c += 1,
+                _ => {}
+            }
+        }
+        match r.below(9) {
+            0 => r.shuffle(&mut ps),
+            1 => {
+                if !ps.is_empty() {
+                    let x = ps[ps.len() / 2];
+                    ps.push(x);
+                }
+            }
+            2 => ps.iter_mut().for_each(|x| x.0 = x.0.wrapping_add(0xFF00)),
+            3 => ps.iter_mut().for_each(|x| x.1 = x.1.wrapping_add(0xFFF8)),
+            _ => {}
+        }
+        if k == 0 {
+            ps = vec![(1, 0xFFFF), (2, 0xFFFF), (0xFFFF, 1)];
+        }
+        if k == 1 {
+            ps = vec![(0xFFFF, 3), (0xFFFF, 4)];
+        }
+        if k == 2 {
+            ps = vec![(0, 1), (0xFFFF, 1)];
+        }
+        let res = catch(|| vh::serialize_class_def(&ps));
+        let real = match &res {
+            Err(_) => "trap".to_string(),
+            Ok(Ok(b)) => format!("ok {}", hex(b)),
+            Ok(Err(e)) => unit_err(*e),
+        };
+        s.count(&format!("cdser:{}", real.split(' ').next().unwrap()));
+        let flat: Vec<u16> = ps.iter().flat_map(|p| [p.0, p.1]).collect();
+        s.case("cdser", format!("c17.cdser {}", join(&flat)), real);
+        if let Ok(Ok(b)) = &res {
+            if ps.windows(2).all(|w| w[0].0 < w[1].0) {
+                let ok = match ClassDef::read(FontData::new(b)) {
+                    Ok(o) => {
+                        ps.iter().all(|(g, c)| o.get(GlyphId16::new(*g)) == *c)
+                            && (0..400u16).chain(0xFF00..=0xFFFF).filter(|g| !ps.iter().any(|p| p.0 == *g)).all(|g| o.get(GlyphId16::new(g)) == 0)
+                    }
+                    Err(_) => false,
+                };
+                s.oracle("classdef-writer-roundtrip", ok, || format!("unit=cdser pairs={ps:?}"), || hex(b));
+            }
+        }
+    }
+}
+
 fn corpus_fonts() -> Vec<(String, Vec<u8>)> {
     let mut out = vec![];
     for dir in ["/repo/font-test-data/test_data/ttf", "/repo/klippa/test-data/fonts"] {
@@ -1235,6 +1589,8 @@ fn rand_request(r: &mut Rng, n: u32, cps: &[u32]) -> Req {
 pub fn run(cfg: &Config, s: &mut Session, r: &mut Rng) {
     let th = cfg.thorough();
     let _ = FontData::new(&[]);
+    unit_coverage(s, r, if th { 6000 } else { 600 });
+    unit_classdef(s, r, if th { 6000 } else { 600 });
     let nsyn = if th { 400 } else { 60 };
     for id in 0..nsyn {
         let sf = syn_gdef_font(r, id);
